@@ -620,6 +620,22 @@ pub fn drive_histories(a: &Args, w: &Words, budget_bytes: usize, maxlen: usize, 
             used += data.len() * if clone_live { 2 } else { 1 } + 200;
         }
     }
+    // the reader-based function across the 32 KiB buffer border: payloads longer than one and two
+    // buffers, delivered by short reads (first read short, then full; all reads short)
+    for (n, mr) in [(34_000usize, 7usize), (66_000, 1000)] {
+        rec.begin();
+        rec.new_gen(0);
+        rec.fin_every_call = false;
+        let class = rng.below(4);
+        let mut data = make_input(&mut rng, w, class, n);
+        data.resize(n, 0x33);
+        rec.update(0, 0, &data);
+        rec.fin(0);
+        rec.hash_buf(0);
+        rec.hash_stream(0, &mut rng, mr);
+        rec.hash_stream(0, &mut rng, 40000);
+        used += n;
+    }
     let st = rec.stats();
     println!("STATS {{\"hist\":{{{},\"bytes\":{}}}}}", st, used);
     sh.finish();
@@ -990,8 +1006,9 @@ pub fn drive_streams(a: &Args, w: &Words, thorough: bool) {
     let tmp = std::env::temp_dir().join(format!("verif_c18_{}_{}", std::process::id(), a.seed));
     let _ = std::fs::create_dir_all(&tmp);
     for (li, &len) in lens.iter().enumerate() {
-        let class = rng.below(7);
-        let data = make_input(&mut rng, w, class, len);
+        let class = rng.below(6);
+        let mut data = make_input(&mut rng, w, class, len);
+        data.resize(len, 0x55); // exactly this length (the 32 KiB buffer borders matter)
         rec.begin();
         rec.new_gen(0);
         rec.update(0, 0, &data);
